@@ -96,6 +96,7 @@ theorem footprint_per_instance :
     (∀ m ∈ protocolFootprint.moduleMutables, m = "QUEUE") ∧
     (∀ a ∈ protocolFootprint.storedAttrs, a ∈ protocolFootprint.initAttrs) ∧
     protocolFootprint.sharedMutableInitValues = [] ∧
+    (∀ u ∈ protocolFootprint.queueUses, u = "put_nowait") ∧
     protocolFootprint.factoryFreshInstance = true ∧
     protocolFootprint.factoryPassesQueue = true := by
   decide
